@@ -84,8 +84,8 @@ _short_before_cache = short
 
 def short(call):
     m = re.search(r'op \|-> "(open|stat|list|read|seek|readdir|hstat|close|step|fail)"', call)
-    if not m or not re.search(r'\bwh \|-> ', call):
-        return _short_before_cache(call)
+    if not m or not re.search(r'\bwh \|-> ', call) or not re.search(r'\bname \|-> ', call):
+        return _short_before_cache(call)   # Handles.tla calls have wh too, but no name
     f = dict(re.findall(r'(\w+) \|-> "?([^",\]]*)"?', call))
     op = m.group(1)
     if op == "open":
